@@ -410,6 +410,78 @@ theorem rhsValueF_multi_field_instance (T : FunTab K) (L : Op ι K) (u v x : St 
 
 end
 
+/-! ### multi-field right-hand sides: an equation sees only what it mentions -/
+section
+variable {ι K : Type} [Field K]
+
+/-- an equation sees only the fields, coordinates and constants whose names occur in it: two
+environments that agree, cell by cell, on the symbols of the right-hand side give the same
+value (the other fields of a multi-field `PDE` and unused constants do not matter) -/
+theorem rhsValueF_env_congr (T : FunTab K) (look : String → Option (Op ι K))
+    (vars vars' : List (String × St ι K)) (scalars scalars' : List (String × K)) (e : Expr)
+    (h : ∀ s ∈ symbols e, ∀ i, (cellEnv vars scalars i).sc s = (cellEnv vars' scalars' i).sc s) :
+    rhsValueF T look vars scalars e = rhsValueF T look vars' scalars' e := by
+  unfold rhsValueF
+  congr 1
+  apply eval_env_congr
+  intro s hs
+  rw [fieldEnvS_eq_liftEnv, fieldEnvS_eq_liftEnv]
+  constructor
+  · simp only [liftEnv]
+    congr 1
+    funext i
+    exact h s hs i
+  · rfl
+
+/-- adding a field that the equation does not mention changes nothing -/
+theorem rhsValueF_unused_field (T : FunTab K) (look : String → Option (Op ι K))
+    (vars : List (String × St ι K)) (scalars : List (String × K)) (e : Expr) (name : String)
+    (w : St ι K) (hn : name ∉ symbols e) :
+    rhsValueF T look ((name, w) :: vars) scalars e = rhsValueF T look vars scalars e := by
+  apply rhsValueF_env_congr
+  intro s hs i
+  have hne : s ≠ name := fun h => hn (h ▸ hs)
+  have hb : (s == name) = false := by simpa using hne
+  simp [cellEnv, List.lookup, hb]
+
+end
+
+/-! ### the grouped-text deviation and the time -/
+section
+variable {ι K : Type} [Field K] [CharZero K]
+
+/-- the grouped-text finding at every time: with a time-dependent affine operator
+`L(t) = A(t) + b(t)` the grouped Kuramoto-Sivashinsky / Swift-Hohenberg texts exceed the class
+rates AT TIME `t` by `ν b(t)` / `2 kc2 b(t)` - the deviation follows the time dependence of the
+boundary condition -/
+theorem grouped_text_vs_split_class_gap_at (T : FunTab K) (A : TOp ι K) (b : K → St ι K)
+    (g : TOp ι K) (t : K) (hA : IsLinearOp (A t)) (c : St ι K) (i : ι) :
+    (∀ ν : Rat, rhsValueAt T (fun s => affine (A s) (b s)) g [("c", c)] t (ksExpr (Fac.exact ν)) i =
+      ksRateAt (ν : K) (fun s => affine (A s) (b s)) (fun s => affine (A s) (b s)) g t c i
+        + (ν : K) * b t i) ∧
+    (∀ (ε kc2 : K) (a δ k2 : Rat), (a : K) = ε - kc2 ^ 2 → (k2 : K) = 2 * kc2 →
+      rhsValueAt T (fun s => affine (A s) (b s)) g [("c", c)] t
+          (swiftHohenbergExpr (Fac.exact a) (Fac.exact δ) (Fac.exact k2)) i =
+        swiftHohenbergRateAt ε kc2 (δ : K) (fun s => affine (A s) (b s)) (fun s => affine (A s) (b s)) t c i
+          + 2 * kc2 * b t i) := by
+  have z : Fac := Fac.exact 0
+  refine ⟨fun ν => ?_, fun ε kc2 a δ k2 ha hk => ?_⟩
+  · rw [rhsValueAt_eq_frozen _ _ _ _ _ _ (t_notin_class_texts z z z (Fac.exact ν) z z z z z z true).2.2.2.2.1]
+    exact ks_grouped_text_vs_split_class_gap T ν hA (b t) (g t) c i
+  · rw [rhsValueAt_eq_frozen _ _ _ _ _ _
+      (t_notin_class_texts z z z z z (Fac.exact a) (Fac.exact δ) (Fac.exact k2) z z true).2.2.2.2.2.2.1]
+    exact swiftHohenberg_grouped_text_vs_split_class_gap T ε kc2 a δ k2 ha hk hA (b t) (g t) c i
+
+/-- where the time enters a class rate: through the offset of the operator of that time only
+(diffusion with `L(t) = A + b(t)`, time-independent linear part) -/
+theorem diffusionRateAt_time_dependence (D : K) (A : Op ι K) (b : K → St ι K) (t t' : K)
+    (c : St ι K) (i : ι) :
+    diffusionRateAt D (fun s => affine A (b s)) t c i - diffusionRateAt D (fun s => affine A (b s)) t' c i =
+      D * (b t i - b t' i) := by
+  simp only [diffusionRateAt, diffusionRate, affine]; ring
+
+end
+
 /-! ### C10.2 `sumSquares` and the `{"values"}` operator -/
 section
 variable {ι K : Type} [Field K]
@@ -539,6 +611,27 @@ example (t : ℚ) : rhsValueAt (algTab : FunTab ℚ) exLapT (fun _ _ _ => 0) [("
 
 example : diffusionRateAt 2 exLapT 1 exC 0 ≠ diffusionRateAt 2 exLapT 2 exC 0 := by
   simp [diffusionRateAt, diffusionRate, exLapT, affineOp, exA, exC, List.range, List.range.loop]
+
+/-- the grouped Kuramoto-Sivashinsky text with the time-dependent operator `A + 3t`: at every
+time `t` it exceeds the class rate by `ν b(t) = 3t/2` (instance of
+`grouped_text_vs_split_class_gap_at`, hypothesis: the linear part is linear) -/
+example (t : ℚ) :
+    rhsValueAt (algTab : FunTab ℚ) (fun s => affine (affineOp 2 exA (fun _ => 0)) (fun _ => 3 * s))
+        (fun _ _ _ => 0) [("c", exC)] t (ksExpr (Fac.exact (1/2))) 0 =
+      ksRateAt (1/2 : ℚ) (fun s => affine (affineOp 2 exA (fun _ => 0)) (fun _ => 3 * s))
+        (fun s => affine (affineOp 2 exA (fun _ => 0)) (fun _ => 3 * s)) (fun _ _ _ => 0) t exC 0
+        + 3 * t / 2 := by
+  have h := (grouped_text_vs_split_class_gap_at (algTab : FunTab ℚ) (fun _ => affineOp 2 exA (fun _ => 0))
+    (fun s _ => 3 * s) (fun _ _ _ => 0) t (affineOp_is_affine 2 exA (fun _ => (0 : ℚ))).2 exC 0).1 (1/2)
+  rw [h]; push_cast; ring
+
+/-- the equation of `u` in a two-field `PDE` does not see the field `v` -/
+example (T : FunTab ℚ) (L : Op Nat ℚ) (u v : St Nat ℚ) :
+    rhsValueF T (fun f => if f = "laplace" then some L else none) [("v", v), ("u", u)] []
+        (.call1 "laplace" (.var "u")) =
+      rhsValueF T (fun f => if f = "laplace" then some L else none) [("u", u)] []
+        (.call1 "laplace" (.var "u")) :=
+  rhsValueF_unused_field T _ _ _ _ "v" v (by simp [symbols])
 
 /-- with an offset `gradient_squared` is not homogeneous of degree two (the hypothesis of
 `sumSquares_homogeneous` is needed) -/
